@@ -19,6 +19,8 @@ Representation choices (none is read by the modelled code paths in a way that ch
   priming payload) — the ground truth; `purged` says how many entries of each log the store has evicted
   (label EVICT, at any time, any prefix); `After` from an evicted position fails (`ErrEventsPurged`) and the
   GET is answered 400 (C20 proves the in-memory store either replays exactly or reports the purge).
+* the world label FANOUT (`WLabel.fanout`): a server-level notification issued from inside a handler; each subscribed
+  session's copy is the per-connection label `fanCopy p` = WRITE(notif p, no context);
 * ghost fields, never read by `step`: `Item.ctx`, `Exch.stream`, `Exch.from`, `Stream.calls`, `Conn.hist`, `Conn.born`.
 
 Deviations from Appendix E (all recorded because the differential run asked for them):
@@ -360,6 +362,30 @@ def writeR {α} (c : Conn α) (msg : Msg α) (ctx : Option ReqId) (ctxNew : Bool
     if c.isDone then (eraseResp c msg, .broken)                -- "session is closed"
     else writeTo (eraseResp c msg) s msg ctx ctxNew
 
+/-! ### APPENDFAIL: a WRITE whose `EventStore.Append` fails
+
+`Write` only remembers the error (`errs = append(errs, err)`): nothing is appended, the event id is still computed from
+`lastIdx + 1` (it depends on `c.eventStore != nil`, not on the outcome of `Append`), `deliverLocked` runs as for any other
+write — a response is removed from `requests`, the stream completes with its last response, `lastIdx` advances — and the
+write fails (rejected) only if the message could not be delivered either.  Not a `Label` (the proofs about label lists
+are about a store that meets its contract); the extended step relation is `McpModel.Resume.AppendFail`. -/
+
+/-- second critical section of a write whose `Append` fails -/
+def writeToF {α} (c : Conn α) (s : Stream α) (msg : Msg α) (ctx : Option ReqId) (ctxNew : Bool) : Conn α × Res :=
+  ({ c with exs := (wDeliver c s msg ctx ctxNew).1,
+            streams := if wDone s msg then delStream s.id c.streams else setStream (wDeliver c s msg ctx ctxNew).2.1 c.streams },
+   if (wDeliver c s msg ctx ctxNew).2.2 then .ok else .rejected)
+
+/-- `Write` with a failing `Append` (when no `Append` is attempted — no store, a ≥ 2026-07-28 context — this is `writeR`) -/
+def writeFR {α} (c : Conn α) (msg : Msg α) (ctx : Option ReqId) (ctxNew : Bool) : Conn α × Res :=
+  if !wUse c ctxNew then writeR c msg ctx ctxNew else
+  if msg.isCall && (c.cfg.stateless || c.cfg.noSession) then (c, .rejected) else
+  match route c msg ctx with
+  | none => (eraseResp c msg, .rejected)
+  | some s =>
+    if c.isDone then (eraseResp c msg, .broken)
+    else writeToF (eraseResp c msg) s msg ctx ctxNew
+
 /-! ### WRITE in two steps: WROUTE (under `c.mu`) and WDELIVER (under the stream's `mu`)
 
 Between the two sections anything may happen: the stream may be detached, re-attached by a resume, closed, even
@@ -515,14 +541,29 @@ def setConn {α} (k : Nat) (c' : Conn α) : List (Nat × Conn α) → List (Nat 
 inductive WLabel (α : Type) where
   | create (sess : Nat) (cfg : Cfg)          -- a POST without session id (or any stateless POST) connects a new transport
   | on (sess : Nat) (l : Label α)            -- a request carrying Mcp-Session-Id `sess`, or a write by that session's server side
+  /-- FANOUT: server code running inside the handler of request `octx` of session `origin` (or anywhere else) makes the
+  SERVER emit a session-independent notification with payload `p` (`Server.ResourceUpdated`, a list-changed
+  announcement): every session in `targets` (the subscribed ones) gets its own copy.  `notifySessions` /
+  `notifySubscribedSessions` send every copy with `context.Background()` (regenerated fact `resume.fanout_context`), so
+  neither `origin` nor `octx` takes part in the step: in each target session the copy is a DETACHED write. -/
+  | fanout (origin : Nat) (octx : Option ReqId) (targets : List Nat) (p : α)
+
+/-- the copy of a fan-out notification one session receives: written with the background context (no request id, no
+protocol version in the context) -/
+def fanCopy {α} (p : α) : Label α := .write (.notif p) none false
+
+/-- a step of session `k` -/
+def wOn {α} (w : World α) (k : Nat) (l : Label α) : World α :=
+  match findConn k w.conns with
+  | none => w                                -- unknown session: 404 by the handler, no connection touched
+  | some c => { conns := setConn k (step c l) w.conns }
 
 def wstep {α} (w : World α) : WLabel α → World α
   | .create k cfg => match findConn k w.conns with
     | some _ => w
     | none => { conns := w.conns ++ [(k, init cfg)] }
-  | .on k l => match findConn k w.conns with
-    | none => w                                -- unknown session: 404 by the handler, no connection touched
-    | some c => { conns := setConn k (step c l) w.conns }
+  | .on k l => wOn w k l
+  | .fanout _ _ ts p => ts.foldl (fun w k => wOn w k (fanCopy p)) w
 
 def wrun {α} (w : World α) (ls : List (WLabel α)) : World α := ls.foldl wstep w
 
